@@ -335,8 +335,14 @@ namespace bloch::cli {
                                       << " | " << std::setw(5) << "prob"
                                       << "\n";
                             std::cout << std::string(outcomeWidth, '-') << "-+-------+-----\n";
+                            // A variable whose scope ends several times per shot (loop body,
+                                // helper called repeatedly, several objects) records several
+                                // outcomes per shot: normalise by its own total, not by the shots.
+                            long total = 0;
+                            for (const auto& p : vals) total += p.second;
                             for (auto& p : vals) {
-                                double prob = static_cast<double>(p.second) / shots;
+                                double prob =
+                                    total > 0 ? static_cast<double>(p.second) / total : 0.0;
                                 std::cout << std::left << std::setw(static_cast<int>(outcomeWidth))
                                           << p.first << " | " << std::right << std::setw(5)
                                           << p.second << " | " << std::setw(5) << prob << "\n";
